@@ -157,6 +157,10 @@ func runC05(c *Ctx) {
 	}
 	// conditional role managers (not modelled): the maintained graph decides like one rebuilt from the listed rules
 	condFamily(c, depth, "after grouping-policy calls on a conditional role definition the live enforcer decides differently from one rebuilt from the listed rules")
+	// conditional role managers against the Lean model: driven directly, and through the grouping API
+	c05CondDirect(c)
+	c05CondEnforcer(c)
+	c.W.Op("case enforcer", "#")
 	// random: longer histories, over-long rules (truncated to the definition's arity by casbin)
 	n := 60
 	if c.Thorough() {
